@@ -217,6 +217,17 @@ void harness(void)
         text[i] = (i < n) ? (c | (c == 0)) : 0;
     }
     text[VF_N] = 0;
+#ifdef VF_TWICE
+    /* the echo of a line must not depend on the line printed before it (static buffer) */
+    {
+        unsigned char prev[VF_N + 1];
+        unsigned pn = nondet_uint();
+        VF_ASSUME(pn <= VF_N);
+        for (unsigned i = 0; i < VF_N; i++) { unsigned char c = nondet_uchar(); prev[i] = (i < pn) ? (c | (c == 0)) : 0; }
+        prev[VF_N] = 0;
+        (void) sanitize_utf8((const char *) prev, pn);
+    }
+#endif
     const char *out = sanitize_utf8((const char *) text, n);
     VF_ASSERT(out != NULL, "C20: sanitize_utf8 returns a string");
     size_t ol = 0;
